@@ -104,6 +104,10 @@ type Params struct {
 	// the channel re-read from disk must equal the channel read before, except for
 	// the field the writer is documented to set.
 	SideWriters bool `json:"side_writers,omitempty"`
+	// ReestMonitor judges every channel_reestablish a party produces (at each cut,
+	// in the live-object probe, and wherever the harness calls CheckReestHere)
+	// field by field against the explorer's own derivation: see reest.go.
+	ReestMonitor bool `json:"reest_monitor,omitempty"`
 	// CutOnlyInSync restricts second and later cuts to states where
 	// resynchronisation is still in progress (quick tier of C02/C03).
 	CutOnlyInSync bool `json:"cut_only_in_sync"`
@@ -190,6 +194,9 @@ type party struct {
 	// exact message, for the C06 release monitor.
 	lastRevoked int64
 	lastRevMsg  []byte
+	// revsIn counts the peer's revoke_and_acks this party accepted (reference for
+	// next_revocation_number in the channel_reestablish monitor).
+	revsIn int64
 	// expectRetx is the reference model's expectation for what this party must
 	// retransmit when it processes the peer's channel_reestablish.
 	expectRetx []string
@@ -278,6 +285,12 @@ type Stats struct {
 	MaxWrites       atomic.Int64
 	SideWrites      atomic.Int64
 	SideRefused     atomic.Int64
+	// channel_reestablish monitor: messages judged, and how many of them were
+	// built with equal / local-ahead / remote-ahead durable heights.
+	ReestChecked     atomic.Int64
+	ReestInSync      atomic.Int64
+	ReestLocalAhead  atomic.Int64
+	ReestRemoteAhead atomic.Int64
 }
 
 var ctxb = context.Background()
@@ -1002,6 +1015,7 @@ func (w *World) deliver(i int) error {
 			return nil
 		}
 		p.awaitingRevoke = false
+		p.revsIn++
 		w.applyFwdPkg(i, fwd)
 	case "reest":
 		return w.processReest(i, m.m.(*lnwire.ChannelReestablish))
